@@ -10,6 +10,10 @@ package json
 //@ spec ibOK(p, b) = p != nil && 0 <= p.ib && p.ib + len(b) <= 4611686018427387904
 //@ spec capOK(p) = 1 <= p.maxRecursion && p.maxRecursion <= 65536
 
+// jdepth: ghost, the number of containers currently open. The level argument equals the
+// nesting depth, so the recursion cap refuses exactly the documents nested deeper than the cap.
+//@ ghostvar jdepth int
+
 //@ pool parserPool invariant p.maxRecursion == maxRecursion
 
 //@ func json.(*parserState).reset
@@ -62,10 +66,14 @@ package json
 //@   loop 3 decreases len(b)
 
 //@ func json.(*parserState).consumeArray
+//@   requires [C08_depth] lvl == jdepth + 1
+//@   ghost entry: jdepth = jdepth + 1
+//@   ghost return: jdepth = jdepth - 1
+//@   ensures [C08_depth_restored] jdepth == old(jdepth)
 //@   requires ibOK(p, b)
 //@   requires [C16_cap] capOK(p)
 //@   requires [C16_lvl] 1 <= lvl && lvl <= p.maxRecursion + 1
-//@   assigns p.ib, p.currPath, p.firstToken, p.querySatisfied
+//@   assigns p.ib, p.currPath, p.firstToken, p.querySatisfied, ghost(jdepth)
 //@   ensures 0 <= n && n <= len(b)
 //@   ensures [C08C09_J2] old(p.ib) <= p.ib && p.ib <= old(p.ib) + len(b)
 //@   ensures [C08_J1] n > 0 ==> p.ib == old(p.ib) + n
@@ -78,10 +86,14 @@ package json
 //@   loop 1 decreases len(b) - n
 
 //@ func json.(*parserState).consumeObject
+//@   requires [C08_depth] lvl == jdepth + 1
+//@   ghost entry: jdepth = jdepth + 1
+//@   ghost return: jdepth = jdepth - 1
+//@   ensures [C08_depth_restored] jdepth == old(jdepth)
 //@   requires ibOK(p, b)
 //@   requires [C16_cap] capOK(p)
 //@   requires [C16_lvl] 1 <= lvl && lvl <= p.maxRecursion + 1
-//@   assigns p.ib, p.currPath, p.firstToken, p.querySatisfied
+//@   assigns p.ib, p.currPath, p.firstToken, p.querySatisfied, ghost(jdepth)
 //@   ensures 0 <= n && n <= len(b)
 //@   ensures [C08C09_J2] old(p.ib) <= p.ib && p.ib <= old(p.ib) + len(b)
 //@   ensures [C08_J1] n > 0 ==> p.ib == old(p.ib) + n
@@ -94,11 +106,13 @@ package json
 //@   loop 1 decreases len(b) - n
 
 //@ func json.(*parserState).consumeValue
+//@   requires [C08_depth] lvl == jdepth
+//@   ensures [C08_depth_restored] jdepth == old(jdepth)
 //@   requires ibOK(p, b)
 //@   requires [C04_reset] lvl == 0 ==> p.ib == 0 && len(p.currPath) == 0 && p.firstToken == TokInvalid && !p.querySatisfied
 //@   requires [C16_cap] capOK(p)
 //@   requires [C16_lvl] 0 <= lvl && lvl <= p.maxRecursion + 8
-//@   assigns p.ib, p.currPath, p.firstToken, p.querySatisfied
+//@   assigns p.ib, p.currPath, p.firstToken, p.querySatisfied, ghost(jdepth)
 //@   ensures 0 <= n && n <= len(b)
 //@   ensures ok ==> n > 0
 //@   ensures [C08C09_J2] old(p.ib) <= p.ib && p.ib <= old(p.ib) + len(b)
@@ -108,11 +122,12 @@ package json
 //@   decreases p.maxRecursion + 9 - lvl, 0
 
 //@ func json.(*parserState).consumeAny
+//@   requires [C08_depth] lvl == jdepth
 //@   requires ibOK(p, b)
 //@   requires [C04_reset] lvl == 0 ==> p.ib == 0 && len(p.currPath) == 0 && p.firstToken == TokInvalid && !p.querySatisfied
 //@   requires [C16_cap] capOK(p)
 //@   requires [C16_lvl] 0 <= lvl && lvl <= p.maxRecursion + 8
-//@   assigns p.ib, p.currPath, p.firstToken, p.querySatisfied
+//@   assigns p.ib, p.currPath, p.firstToken, p.querySatisfied, ghost(jdepth)
 //@   ensures 0 <= n && n <= len(b)
 
 //@ func json.Parse$1
@@ -125,6 +140,7 @@ package json
 //@ ghostfun parseComplete(bytes) bool
 
 //@ func json.Parse
+//@   ghost entry: jdepth = 0
 //@   ensures 0 <= parsed && parsed <= len(raw)
 //@   ensures [C08C09_J2] 0 <= inspected && inspected <= len(raw)
 //@   ensures [C08_J1] parsed > 0 ==> inspected == parsed
